@@ -95,7 +95,7 @@ PROPS = {
         # C06 = the safety obligations (overflow, bounds, slice ranges, unwrap, preconditions of callees such as the
         # allocation budget) of EVERY unit under contract, for all argument values
         'verus': [{'group': g, 'kinds': ['safety', 'requires-at-call', 'decreases', 'invariant']} for g in
-                  ['shard_core', 'shard_strings', 'shard_lists', 'shard_sweeper', 'shard_sets', 'shard_hashes', 'shard_zsets', 'cmd_strings', 'cmd_lists', 'cmd_sets', 'cmd_hashes', 'c03_lists_arith', 'c04_zset_arith', 'c19_scan', 'c20_parser', 'c20_serializer', 'c10_bgsave', 'c11_aof', 'c09_rdb', 'c13_blocking', 'c07_transactions', 'shard_flush', 'c14_pubsub', 'srv_strings', 'srv_zsets', 'cmd_scan', 'cmd_setops', 'exec_strings', 'exec_lists', 'exec_sets', 'exec_route', 'exec_keys', 'exec_zsets', 'c16_pel', 'c12_parse', 'srv_reply', 'cmd_groups']]
+                  ['shard_core', 'shard_strings', 'shard_lists', 'shard_sweeper', 'shard_sets', 'shard_hashes', 'shard_zsets', 'cmd_strings', 'cmd_lists', 'cmd_sets', 'cmd_hashes', 'c03_lists_arith', 'c04_zset_arith', 'c19_scan', 'c20_parser', 'c20_serializer', 'c10_bgsave', 'c11_aof', 'c09_rdb', 'c13_blocking', 'c07_transactions', 'shard_flush', 'c14_pubsub', 'srv_strings', 'srv_zsets', 'cmd_scan', 'cmd_setops', 'exec_strings', 'exec_lists', 'exec_sets', 'exec_route', 'exec_keys', 'exec_zsets', 'c16_pel', 'c12_parse', 'srv_reply', 'cmd_groups', 'c09_load']]
                  # server-level units: their index/slice/overflow/unwrap/termination obligations only (their call preconditions are model permissions, not crashes)
                  + [{'group': g, 'kinds': ['safety', 'decreases']} for g in ['srv_exec', 'srv_frame', 'srv_conn', 'srv_auth', 'srv_push', 'srv_notify', 'srv_aof', 'srv_select', 'srv_wake', 'srv_pubsub']],
         'kani': STREAM_KANI[:1] + RDB_TOTAL_KANI,
@@ -118,9 +118,9 @@ PROPS = {
     'C09': {
         'level': 'proof',
         # the loader re-inserts through set_value/expire with the TTL computed by rdb_load_ttl: the deadline those install is part of the round trip
-        'verus': [{'group': 'c09_rdb'}, {'group': 'shard_core', 'units': ['deadline_after', 'vm_with_expiration', 'vm_set_expiration', 'vm_is_expired', 'sv_with_expiration', 'sv_is_expired', 'set_value', 'expire']}],
+        'verus': [{'group': 'c09_rdb'}, {'group': 'c09_load'}, {'group': 'shard_lists', 'units': ['rpush']}, {'group': 'shard_core', 'units': ['deadline_after', 'vm_with_expiration', 'vm_set_expiration', 'vm_is_expired', 'sv_with_expiration', 'sv_is_expired', 'set_value', 'expire']}],
         'kani': RDB_KANI,
-        'explanation': 'codec level: length / fixed-width field encoders and decoders are inverse for every value (Kani, complete); expiry-on-load computation proved (Verus). Value-level round trip is not under contract',
+        'explanation': 'codec level: length / fixed-width field encoders and decoders are inverse for every value (Kani, complete); expiry-on-load computation proved (Verus); value level for LISTS: the writer\'s and the loader\'s match arms for a LIST record proved against one item-level record format, round trip as a lemma; the other value types are not under contract at value level',
     },
     'C10': {
         'level': 'proof',
